@@ -228,16 +228,25 @@ func getConditionTags(condition influxql.Expr, schema *CleanSchema) []*influx.Po
 			if ltags == nil {
 				return rtags
 			}
+			if rtags == nil {
+				return ltags
+			}
+			// (l1 OR l2 ...) AND (r1 OR r2 ...) is satisfied by the rows of (l1 AND r1), (l1 AND r2), ...:
+			// one tag group per pair, never one group holding the tags of several alternatives.
+			tags := make([]*influx.PointTags, 0, len(ltags)*len(rtags))
 			for i := range ltags {
 				for j := range rtags {
+					group := make(influx.PointTags, 0, len(*ltags[i])+len(*rtags[j]))
+					group = append(group, *ltags[i]...)
 					for ti := range *rtags[j] {
 						if v, ok := schema.GetTyp((*rtags[j])[ti].Key); ok && v == influx.Field_Type_Tag {
-							*ltags[i] = append(*ltags[i], (*rtags[j])[ti])
+							group = append(group, (*rtags[j])[ti])
 						}
 					}
+					tags = append(tags, &group)
 				}
 			}
-			return ltags
+			return tags
 		case influxql.OR:
 			ltags := getConditionTags(expr.LHS, schema)
 			rtags := getConditionTags(expr.RHS, schema)
